@@ -562,12 +562,15 @@ class Plugin:
                 if self.parallel and executor is not None:
                     new_future = executor.submit(self.do_compute, chunk_i=chunk_i, **inputs_merged)
                     pending_futures.append(new_future)
+                    still_pending = []
                     for f in pending_futures:
-                        if f.done() and f.exception() is not None:
+                        if not f.done():
+                            still_pending.append(f)
+                        elif f.exception() is not None:
                             # Do not forget a failed computation: cleanup() closes
                             # inlined savers, which must learn the data is incomplete.
                             raise f.exception()
-                    pending_futures = [f for f in pending_futures if not f.done()]
+                    pending_futures = still_pending
                     yield new_future
                 else:
                     yield from self._iter_compute(chunk_i=chunk_i, **inputs_merged)
